@@ -9,11 +9,20 @@ use crate::prng::Rng;
 
 pub struct Env<'a> {
     pub schema: &'a ASchema,
+    /// every schema that can be imported (by name)
+    pub world: &'a [&'a ASchema],
 }
 
 impl<'a> Env<'a> {
     pub fn def(&self, name: &str) -> Option<&'a ADef> {
         self.schema.defs.iter().find(|d| d.name() == name)
+    }
+    /// definition `schema::name` together with the environment its own references resolve in
+    pub fn ext(&self, schema: &str, name: &str) -> Option<(Env<'a>, &'a ADef)> {
+        let s = self.world.iter().find(|s| s.name == schema)?;
+        let env = Env { schema: s, world: self.world };
+        let d = env.def(name)?;
+        Some((env, d))
     }
     fn const_int(&self, name: &str) -> Option<u32> {
         match self.def(name)? {
@@ -157,7 +166,10 @@ pub fn conforming(env: &Env, t: &AType, r: &mut Rng, depth: usize) -> Option<RV>
             }
         }
         AType::Named(n) => conforming_def(env, env.def(n)?, r, depth + 1, true)?,
-        AType::Extern(_, _) => return None,
+        AType::Extern(s, n) => {
+            let (e2, d) = env.ext(s, n)?;
+            conforming_def(&e2, d, r, depth + 1, true)?
+        }
     })
 }
 
@@ -248,6 +260,10 @@ pub fn normal_form(env: &Env, t: &AType, v: &RV) -> RV {
             Some(d) => normal_form_def(env, d, v),
             None => v.clone(),
         },
+        (AType::Extern(s, n), _) => match env.ext(s, n) {
+            Some((e2, d)) => normal_form_def(&e2, d, v),
+            None => v.clone(),
+        },
         _ => v.clone(),
     }
 }
@@ -288,7 +304,11 @@ pub fn normal_form_def(env: &Env, d: &ADef, v: &RV) -> RV {
 /// A value of a kind that `t` can never accept, if such a kind exists.
 fn wrong_kind(env: &Env, t: &AType) -> Option<RV> {
     match t {
-        AType::Value | AType::Unit | AType::Option(_) | AType::Extern(_, _) => None,
+        AType::Value | AType::Unit | AType::Option(_) => None,
+        AType::Extern(s, n) => match env.ext(s, n)? {
+            (e2, ADef::Newtype { ty, .. }) => wrong_kind(&e2, ty),
+            _ => Some(RV::ObjectId([3; 32])),
+        },
         AType::Box(x) => wrong_kind(env, x),
         AType::ObjectId | AType::Lifetime => Some(RV::Bool(true)),
         AType::Named(n) => match env.def(n)? {
